@@ -90,6 +90,19 @@ def gen_case(rng, tier, idx):
                          [3, {"a": "limit", "side": "any", "off": [-3, 3], "vol": [1, 3], "ttl": [None, 3]}],
                          [1, {"a": "cancel", "which": "any"}], [1, {"a": "market", "side": "any", "vol": [1, 2], "ttl": [2]}]]}}
     cfg["simulation"]["agents"] = ["FCNFixed", "FCNNormal", "FCNIndex", "Share", "Maker", "Arb", "Tester", "Script"]
+    if idx % 8 == 2:
+        # three more index markets, quoted every step with short-lived orders far from the price: orders of several index
+        # markets reach the end of their lifetime in the same step (the records of one clock advance come in market order)
+        for j in (2, 3, 4):
+            cfg["Index%d" % j] = {"class": "IndexMarket", "tickSize": 0.01, "marketPrice": 300.0, "outstandingShares": 25000,
+                                  "markets": list(names[:2])}
+            cfg["simulation"]["markets"].append("Index%d" % j)
+        cfg["IdxQuoter"] = {"class": "ScriptAgent", "numAgents": 4, "markets": ["Index2", "Index3", "Index4", "Index"],
+                            "assetVolume": 50, "cashAmount": 10000,
+                            "program": {"p_act": 1.0, "max_batch": 3, "actions": [
+                                [1, {"a": "limit", "side": "buy", "off": [-900, -500], "vol": [1, 2], "ttl": [2, 3]}],
+                                [1, {"a": "limit", "side": "sell", "off": [500, 900], "vol": [1, 2], "ttl": [2, 3]}]]}}
+        cfg["simulation"]["agents"].append("IdxQuoter")
     # randomised endowments: every draw a component makes during setup must come from its own generator, in a
     # configuration-determined order (several market groups per agent type make the order matter)
     for g in ("FCNBase", "Arb", "Tester", "Script", "Maker"):
